@@ -188,7 +188,7 @@ func checkC19(c *Ctx) {
 		}
 	}
 	for i, ln := range fam["lex.ndjson"] {
-		if every > 1 && (int64(i)+c.Seed)%int64(every) != 0 {
+		if !sampled(i, c.Seed, every) {
 			continue
 		}
 		var m struct {
